@@ -212,7 +212,9 @@ def tlc(spec_dir, module, cfg, consts=None, workers=8, timeout=600, edges=True, 
     cfg_dst = os.path.join(work, module + ".cfg")
     render_cfg(cfg_src, cfg_dst, consts or {})
     tracefile = os.path.join(work, "cex.json")
-    cmd = ["java", "-XX:+UseParallelGC", "-Xmx" + heap, "-Xss64m"] + list(jvm) + ["-cp", TLA_JAR, "tlc2.TLC",
+    jtmp = os.path.join(work, "jtmp")     # TLC unpacks its standard modules into java.io.tmpdir and leaves them there
+    os.makedirs(jtmp, exist_ok=True)
+    cmd = ["java", "-XX:+UseParallelGC", "-Xmx" + heap, "-Xss64m", "-Djava.io.tmpdir=" + jtmp] + list(jvm) + ["-cp", TLA_JAR, "tlc2.TLC",
            "-workers", str(workers), "-metadir", os.path.join(work, "md"), "-config", cfg_dst, "-noGenerateSpecTE"]
     if dump_trace:
         cmd += ["-dumpTrace", "json", tracefile]
